@@ -31,6 +31,12 @@ class Ctx:
             from .program import Program
 
             self._progs[key] = Program(facts(backend, profile))
+            try:
+                from ..rules.flow import register_accessors
+
+                register_accessors(self._progs[key])
+            except Exception:
+                pass
             self.analysed["configs"].add("%s/%s" % key)
         return self._progs[key]
 
